@@ -455,6 +455,34 @@ def exp_prefix(exp, stream, end, acc):
     return parts[0] + " " + digest(stream[end:acc])
 
 
+WRAP_BODY = b"hello world, here!!"
+
+
+def wrap_values(rng, base):
+    """Lengths >= 2^64 whose residue modulo 2^64 is a SMALL length n: (label, text of the number, n).  A conversion that
+    accumulates in a 64-bit word reads them as n.  2^64*k + n for k = 1..3, and numbers of 20..25 decimal (17..22 hex) digits."""
+    fmt = (lambda v: b"%d" % v) if base == 10 else (lambda v: rng.choice([b"%x", b"%X"]) % v)
+    out = []
+    for k in (1, 2, 3):
+        for n in (0, 1, 5, 16):
+            out.append(("2^64*%d+%d" % (k, n), fmt((k << 64) + n), n))
+    for d in (range(20, 26) if base == 10 else range(17, 23)):
+        for n in (5, rng.choice([0, 1, 2, 3, 7, 11, 16])):
+            lo = base ** (d - 1)
+            k = max(1, (lo >> 64) + 1 + rng.below(max(1, (lo * (base - 1)) >> 64)))
+            v = (k << 64) + n
+            if len(fmt(v)) != d:
+                k = (lo >> 64) + 1
+                v = (k << 64) + n
+            out.append(("%d-digits-res-%d" % (len(fmt(v)), n), fmt(v), n))
+    return out
+
+
+def zero_padded(base):
+    """VALID spellings: small values with so many leading zeros that the text is longer than any 64-bit number."""
+    return [(b"0" * z + (b"%d" if base == 10 else b"%x") % n, n) for z, n in ((19, 5), (20, 5), (24, 5), (40, 10), (21, 0), (30, 18), (63, 1))]
+
+
 def invalid_length_responses(rng):
     """Responses whose length information is invalid: each must end in `error`, never in a response."""
     out = []
@@ -484,6 +512,13 @@ def invalid_length_responses(rng):
         out.append(("cl-boundary-%d" % n, cl(b"%d" % n)))
         out.append(("chunk-boundary-%x" % n, ch(b"%x\r\nzz" % n)))
         out.append(("chunk-boundary-ext-%x" % n, ch(b"%X;a=b\r\nzz\r\n0\r\n\r\n" % n)))
+    # >= 2^64 with a small residue n and EXACTLY n body bytes: a wrapping conversion would return a complete response
+    for label, v, n in wrap_values(rng, 10):
+        out.append(("cl-wrap-" + label, H + b"Content-Length: " + v + b"\r\n\r\n" + WRAP_BODY[:n]))
+        out.append(("cl-wrap-list-" + label, H + b"Content-Length: %d, " % n + v + b"\r\n\r\n" + WRAP_BODY[:n]))
+    for label, v, n in wrap_values(rng, 16):
+        out.append(("chunk-wrap-" + label, ch(v + b"\r\n" + (WRAP_BODY[:n] + b"\r\n0\r\n\r\n" if n else b"\r\n"))))
+        out.append(("chunk-wrap-2nd-" + label, ch(b"3\r\nabc\r\n" + v + b";e=1\r\n" + (WRAP_BODY[:n] + b"\r\n0\r\n\r\n" if n else b"\r\n"))))
     return out
 
 
@@ -742,6 +777,14 @@ def invalid_length_requests(rng):
         out.append(("cl-boundary-%d" % n, cl(b"%d" % n)))
         out.append(("chunk-boundary-%x" % n, ch(b"%x\r\nzz" % n + follow)))
         out.append(("chunk-boundary-ext-%x" % n, ch(b"%X;a=b\r\nzz\r\n0\r\n\r\n" % n + follow)))
+    # >= 2^64 with a small residue n, EXACTLY n body bytes and a pipelined request behind them: a conversion that wraps would
+    # dispatch POST /x with the n-byte body and then GET /next (the request-smuggling shape)
+    for label, v, n in wrap_values(rng, 10):
+        out.append(("cl-wrap-" + label, R + b"Content-Length: " + v + b"\r\n\r\n" + WRAP_BODY[:n] + follow))
+        out.append(("cl-wrap-dup-" + label, R + b"Content-Length: %d\r\nContent-Length: " % n + v + b"\r\n\r\n" + WRAP_BODY[:n] + follow))
+    for label, v, n in wrap_values(rng, 16):
+        out.append(("chunk-wrap-" + label, ch(v + b"\r\n" + (WRAP_BODY[:n] + b"\r\n0\r\n\r\n" if n else b"\r\n") + follow)))
+        out.append(("chunk-wrap-2nd-" + label, ch(b"3\r\nabc\r\n" + v + b";e=1\r\n" + (WRAP_BODY[:n] + b"\r\n0\r\n\r\n" if n else b"\r\n") + follow)))
     return out
 
 
@@ -891,6 +934,86 @@ def gen_server_pipeline_offsets(ctx, rng, quick):
             ops += o
         cases.append({"cat": "server-valid", "name": "pipeline-offsets:" + name, "ops": ops, "blocks": blocks, "stream_len": len(stream),
                       "nreq": len(reqs), "nseg": len(blocks), "kinds": []})
+    return cases
+
+
+def gen_leading_zero_lengths(ctx, rng, quick):
+    """VALID lengths spelled with more digits than any 64-bit number has (leading zeros): Content-Length `000000000000000000000005`
+    and chunk sizes `00000000000000000005` / last-chunk `000000000000000000` must be accepted as exactly that value on both
+    endpoints (a digit-count limit, or a conversion that rejects by length, would break them) - every single cut, 1-byte drip,
+    and through the real executeRequest."""
+    cases = []
+    body_src = b"hello world, here is the body"
+    # ---- server: POST with the padded length + a pipelined GET
+    for base in (10, 16):
+        for text, n in zero_padded(base):
+            body = body_src[:n]
+            if base == 10:
+                fields = [(b"Host", b"a"), (b"Content-Length", text)]
+                tail = body
+            else:
+                fields = [(b"Host", b"a"), (b"Transfer-Encoding", b"chunked")]
+                tail = (text + b"\r\n" + body + b"\r\n" if n else b"") + b"0" * rng.choice([1, 17, 30]) + b"\r\n\r\n"
+            wire = b"POST /z HTTP/1.1\r\n" + b"".join(k + b": " + v + b"\r\n" for k, v in fields) + b"\r\n" + tail
+            reqs = [(wire, "R/1/%s/%s/%s" % (hexs(b"/z"), show_headers(fields), digest(body))), plain_request(0, b"/next")]
+            stream = b"".join(r[0] for r in reqs)
+            ends = [len(reqs[0][0]), len(stream)]
+            seglist = [[stream]] + [[stream[:c], stream[c:]] for c in range(1, len(stream))] + [[stream[i:i + 1] for i in range(len(stream))]]
+            blocks, ops = [], []
+            for segs in seglist:
+                o = server_ops(segs)
+                want = ["ok"]
+                acc, k = 0, 0
+                for sgm in segs:
+                    acc += len(sgm)
+                    evs = []
+                    while k < len(reqs) and acc >= ends[k]:
+                        evs += [reqs[k][1], "S:200"]
+                        k += 1
+                    want.append("%s | io=- | buf=%d alive=1" % (",".join(evs) if evs else "-", acc - (ends[k - 1] if k else 0)))
+                blocks.append((len(ops), len(o), want))
+                ops += o
+            cases.append({"cat": "server-valid", "name": "leading-zeros:%s:%s" % ("cl" if base == 10 else "chunk", text.decode()), "ops": ops,
+                          "blocks": blocks, "stream_len": len(stream), "nreq": 2, "nseg": len(blocks), "kinds": []})
+    # ---- client
+    xr_ops, xr_expect = [], []
+    for base in (10, 16):
+        for text, n in zero_padded(base):
+            body = body_src[:n]
+            if base == 10:
+                fields = [(b"Content-Length", text)]
+                tail = body
+            else:
+                fields = [(b"Transfer-Encoding", b"chunked")]
+                tail = (text + b"\r\n" + body + b"\r\n" if n else b"") + b"0" * rng.choice([1, 17, 30]) + b"\r\n\r\n"
+            stream = b"HTTP/1.1 200 OK\r\n" + b"".join(k + b": " + v + b"\r\n" for k, v in fields) + b"\r\n" + tail
+            exp = "200 %s %s %s %s" % (hexs(b"1.1"), hexs(b"OK"), show_headers(fields), digest(body))
+            end = len(stream)
+            cap = 1 << 20
+            seglist = [[stream]] + [[stream[:c], stream[c:]] for c in range(1, len(stream))] + [[stream[i:i + 1] for i in range(len(stream))]]
+            blocks, ops = [], []
+            for segs in seglist:
+                o = client_ops(b"GET", cap, segs, True)
+                want = ["ok"]
+                acc, done = 0, False
+                for sg in segs:
+                    acc += len(sg)
+                    if done:
+                        want.append("done")
+                    elif acc >= end:
+                        want.append("response %s evict=0" % exp)
+                        done = True
+                    else:
+                        want.append(None)
+                want.append("done")
+                blocks.append((len(ops), len(o), want))
+                ops += o
+            cases.append({"cat": "client-valid", "name": "leading-zeros:" + text.decode(), "ops": ops, "blocks": blocks, "stream_len": len(stream),
+                          "cap": cap, "nseg": len(blocks), "close_delim": False})
+            for segs in ([stream], [stream[:len(stream) // 2], stream[len(stream) // 2:]]):
+                xr_ops.append("xr %s %d 0 1 %s" % (hexs(b"GET"), cap, " ".join(xr_script(segs))))
+                xr_expect.append(("response", exp, False))
+    cases.append({"cat": "client-xr", "ops": xr_ops, "expect": xr_expect, "stream_len": 0, "nseg": len(xr_ops)})
     return cases
 
 
@@ -1050,6 +1173,8 @@ OBLIGATIONS = [
      "statement": "client: after the loop the connection is dropped for every error outcome and for every response with surplus bytes / a close-delimited body"},
     {"id": "C15_F4a", "theorem": "Iora.C15.F4_content_length_sound", "kind": "proved",
      "statement": "client: a Content-Length value is accepted only if every comma element is 1*DIGIT < 2^64 and all are equal"},
+    {"id": "C15_F4a2", "theorem": "Iora.C15.F4_number_is_unbounded_value", "kind": "proved",
+     "statement": "both endpoints' number parser (from_chars / all-digits + stoull) is over digit strings of ANY length: an accepted result is the unbounded positional value of the text and < 2^64; a text whose value is >= 2^64 is rejected whatever its residue modulo 2^64 (example: 18446744073709551621 = 2^64+5; leading zeros beyond 20 digits accepted exactly)"},
     {"id": "C15_F4b", "theorem": "Iora.C15.F4_framing_sound", "kind": "proved",
      "statement": "client: Content-Length framing is chosen only without Transfer-Encoding, with a valid value within the cap"},
     {"id": "C15_F4c", "theorem": "Iora.C15.F4_cl_and_te_rejected", "kind": "proved",
@@ -1080,6 +1205,8 @@ OBLIGATIONS = [
      "statement": "server: the header-size cap applies to each request's own header block - every pipeline of requests with header <= MAX_HEADER_SIZE that fits the buffer cap is extracted completely, whatever the cumulative offset (example: 70000-byte first request, follower in the same pass)"},
     {"id": "C15_gen_loop", "theorem": "Iora.C15.gen_extract_loop", "kind": "proved",
      "statement": "Gen conformance: the statement skeleton of handleIncomingData's pipelining loop (what every offset is relative to: search from 0 of a buffer trimmed per request) is the one the model's extractOne/drainLoop were written from"},
+    {"id": "C15_gen_numbers", "theorem": "Iora.C15.gen_number_parsers", "kind": "proved",
+     "statement": "Gen conformance: the statement skeletons of the length conversions (server Content-Length: all-digits test + std::stoull + catch + limit; client parseFullUInt: from_chars + errc + end pointer; parseContentLength; client chunk size + cap; server chunk-size loop with the limit check right after every shift) are the ones the models' parseFullUInt / sizeDigits were written from"},
     {"id": "C15_S3a", "theorem": "Iora.C15.S3_buffer_bounded", "kind": "proved",
      "statement": "server: session buffer <= MAX_BUFFER_SIZE; an exceeding read closes the connection unbuffered"},
     {"id": "C15_S3b", "theorem": "Iora.C15.S3_limits", "kind": "proved",
@@ -1117,6 +1244,7 @@ def gen_all(ctx, quick, scale):
     cases += gen_server_caps(ctx, rng.fork("sc"), quick)
     cases += gen_server_pipeline_offsets(ctx, rng.fork("sp"), quick)
     cases += gen_server_direct(ctx, rng.fork("sd"), 200 * scale)
+    cases += gen_leading_zero_lengths(ctx, rng.fork("lz"), quick)
     return cases
 
 
